@@ -55,14 +55,19 @@ unsafe impl Sync for Svc2 {}
 
 impl RpcService for Svc2 {
     fn service_name() -> &'static str {
-        "c14-second-service"
+        "c14-beta"
     }
     fn register_handlers(r: &mut ServiceRegistry<Self>) {
         r.add_handler::<Msg>();
     }
 }
 
+// the two services' (name, message path) pairs are each other's mirror image: anything that
+// identifies a handler by a symmetric combination of the two confuses them
 impl RpcService for Svc {
+    fn service_name() -> &'static str {
+        "c14-alpha"
+    }
     fn register_handlers(r: &mut ServiceRegistry<Self>) {
         r.add_handler::<Msg>();
     }
@@ -124,6 +129,9 @@ async fn handle(sid: u64, svc: u8, execs: &Execs, msg: Request<Msg>) -> Result<R
 #[datacake_rpc::async_trait]
 impl Handler<Msg> for Svc2 {
     type Reply = Rep;
+    fn path() -> &'static str {
+        "c14-alpha"
+    }
     async fn on_message(&self, msg: Request<Msg>) -> Result<Rep, Status> {
         handle(self.sid, 1, &self.execs, msg).await
     }
@@ -132,6 +140,9 @@ impl Handler<Msg> for Svc2 {
 #[datacake_rpc::async_trait]
 impl Handler<Msg> for Svc {
     type Reply = Rep;
+    fn path() -> &'static str {
+        "c14-beta"
+    }
     async fn on_message(&self, msg: Request<Msg>) -> Result<Rep, Status> {
         handle(self.sid, 0, &self.execs, msg).await
     }
@@ -254,7 +265,7 @@ impl Check for C14 {
         "E2: one or two server hosts (real datacake-rpc Server, two services sharing a message type, handlers log executions per request id, optional handler delay or refusal) and one or two client hosts (real RpcClient/Channel, one Channel per server) over simulated TCP with timed hold/release, partition/repair (also mid-stream) and server kill+restart"
     }
     fn rule(&self) -> &'static str {
-        "Cases: one or (half the cases) two server hosts and one or two client hosts; every server offers two services that share one message type and answer differently, and 15 % of the requests of those cases are refused by their handler with one of the five error codes and a message naming the request; 2-14 waves of 1-12 concurrent requests with unique ids, payloads 0-20 KiB (one case in seven: also 64-900 KiB, several HTTP/2 flow-control windows), handler delays 0-600 ms, per-request client timeouts 30-2500 ms or none (the configured client used directly or through a clone), several clients sharing one Channel (first use raced) or a fresh Channel per wave; 0-8 fault events at seeded times: link hold/release, partition/repair (segments of established streams are dropped), server kill+restart. Oracle over the recorded results: each is Ok(f(id, payload size, service, server)) carrying its own id, or its own handler's refusal verbatim, or ConnectionError/Timeout; the handler ran at most once per id and at least once for every Ok; a request with client timeout T returned within T + 2 ms; nothing panics. Requests without a timeout that are black-holed are abandoned by the harness after 30 simulated s (allowed). Non-trivial = a fault event lies between the first and last wave and >= 2 requests overlapped. Distinct = hash of the result-kind sequence."
+        "Cases: one or (half the cases) two server hosts and one or two client hosts; every server offers two services that share one message type and answer differently (service \"c14-alpha\" with message path \"c14-beta\" and service \"c14-beta\" with message path \"c14-alpha\"), and 15 % of the requests of those cases are refused by their handler with one of the five error codes and a message naming the request; 2-14 waves of 1-12 concurrent requests with unique ids, payloads 0-20 KiB (one case in seven: also 64-900 KiB, several HTTP/2 flow-control windows), handler delays 0-600 ms, per-request client timeouts 30-2500 ms or none (the configured client used directly or through a clone), several clients sharing one Channel (first use raced) or a fresh Channel per wave; 0-8 fault events at seeded times: link hold/release, partition/repair (segments of established streams are dropped), server kill+restart. Oracle over the recorded results: each is Ok(f(id, payload size, service, server)) carrying its own id, or its own handler's refusal verbatim, or ConnectionError/Timeout; the handler ran at most once per id and at least once for every Ok; a request with client timeout T returned within T + 2 ms; nothing panics. Requests without a timeout that are black-holed are abandoned by the harness after 30 simulated s (allowed). Non-trivial = a fault event lies between the first and last wave and >= 2 requests overlapped. Distinct = hash of the result-kind sequence."
     }
     fn assumptions(&self) -> Vec<String> {
         vec![
